@@ -206,8 +206,8 @@ def r4_graceful(ctx):
         r.check(bool(gn) and bool(e1) and bool(e2) and all(p.dominated_by_edges(g, e1) for g in gn), 'idle-close', p.file, 'the idle branch (should_close_on_idle && !has_streams) calls go_away_now(NO_ERROR)')
 
 
-def r4b_shutdown_ping(ctx):
-    r = ctx.rule('C15.R4b', 'PAIR', 'the shutdown PING stays outstanding until its own ack: an ack with another payload leaves pending_ping in place')
+def r4b_shutdown_ping(ctx, rid='C15.R4b'):
+    r = ctx.rule(rid, 'PAIR', 'the shutdown PING stays outstanding until its own ack: an ack with another payload leaves pending_ping in place')
     F = ctx.facts
     from .. import slots
     PP = 'proto::ping_pong::PingPong'
